@@ -8,7 +8,7 @@ RULE = ("trees {A=base(L), B=base(L) with one byte flipped at offset o, C=base(L
         "for L in {0,1,4095,4096,4097,16383,16384,16385,65535,65536,65537,131073} and o in "
         "{0,4095,4096,16383,16384,L-4097,L-4096,L/2,L-1}; x hash function x pinned disk kind (x cache, prefix/suffix "
         "sizes, -t 1 in thorough); transform sub-space: keep/shrink/double/prefix programs x 5 I/O modes on trees that "
-        "differ before / only beyond the input length; cache histories: warm `--cache` run, then one member of a group gets the other class's bytes at the same length with its mtime moved forward / backward by seconds or by 1 ms, or by a rename over it / a swap of two files, then a second cached run. Oracle: every reported group is re-read and compared byte for "
+        "differ before / only beyond the input length; transforms that exit with status 1 after no / two bytes of output, run once and twice with --cache (no group may be reported); cache histories: warm `--cache` run, then one member of a group gets the other class's bytes at the same length with its mtime moved forward / backward by seconds or by 1 ms, or by a rename over it / a swap of two files, then a second cached run. Oracle: every reported group is re-read and compared byte for "
         "byte (transform output for --transform), file_len == that length. Non-trivial = a run that reported at least "
         "one group of >= 2 paths; distinct by (tree, configuration).")
 ASSUMPTIONS = ["--skip-content-hash is never passed (excluded by the statement)",
@@ -147,6 +147,14 @@ def cases(tier, seed):
                     if not quick:
                         out.append(mk(tree_plain(L, o), "plain", L, o, "blake3", "unknown", extra + ["--cache"],
                                       repeat=2, tr=[op, mode]))
+    # transforms that FAIL (exit status 1) after no / partial output, twice with the cache: a file whose transform
+    # failed has no transform output and may not be reported in any group - in the first run or from the cache
+    for L, o in ((10, 9), (5000, 4999)):
+        for op in FAIL_OPS:
+            for mode in ("pipe", "in"):
+                for cache in ([], ["--cache"]):
+                    extra = G.transform_args(op, mode) + ["--rf-over", "0"] + cache
+                    out.append(mk(tree_two(L, o), "two", L, o, "metro", "ssd", extra, tr=[op, mode], repeat=2 if cache else 1))
     # length-changing transforms on trees with hard links (one hash per file id is shared by all its names)
     for L in (10, 5000):
         for op in ("shrink", "double", "prefix"):
@@ -166,6 +174,7 @@ def cases(tier, seed):
     return out
 
 
+FAIL_OPS = ("failempty", "failpart")
 CACHE_EDITS = ["rewrite_newer", "rewrite_older", "rewrite_plus_1ms", "rewrite_minus_1ms", "replace_by_rename",
                "swap_by_rename"]
 
@@ -291,6 +300,15 @@ def evaluate(case):
             continue
         if run["rc"] != 0 or run["report"] is None:
             outcome.append("panic" if "panicked" in run["err"] else "error_exit")
+            continue
+        if trop in FAIL_OPS:
+            for g in G.observed_groups(run["report"]):
+                nontrivial = [meta["kind"], meta["L"], meta["o"], meta["hash"], meta["disk"], meta["extra"], ri]
+                viol.append({"kind": "group_of_failed_transforms", "transform": trop, "cached": "--cache" in meta["extra"],
+                             "run": ri, "detail": "the transform exits with status 1 for every file, yet run %d reports a group "
+                             "of length %d: %s; args %s" % (ri, g["len"], g["paths"][:3], case["args"])})
+            nontrivial = nontrivial or [meta["kind"], meta["L"], meta["o"], "failing transform", meta["extra"], ri]
+            outcome.append("groups" if run["report"].groups else "no_groups")
             continue
         for g in G.observed_groups(run["report"]):
             datas = []
